@@ -6,7 +6,7 @@ from typing import Any, Dict, List, Optional, Sequence, Tuple
 
 from .repo import AnalysisError, FuncInfo, Repo
 from .report import Check
-from .terms import C, Norm, Scope, Term, conjuncts, implies, key, mk_and, same_operands, show, subterms
+from .terms import C, Norm, Scope, Term, conjuncts, implies, key, mk_and, same_operands, show, substitute, subterms
 from .walker import Conj, Event, Summary, Walker, swallowed_by
 
 
@@ -28,6 +28,7 @@ class Spec:
             self.scope.env.setdefault(p, ("v", p))
         for k_, v in (extra or {}).items():
             self.scope.env[k_] = v
+        self.n_named = len(names) if names else None
         self.loops: List[Term] = []
         for target, dom in forall:
             it = self.term(dom)
@@ -304,12 +305,57 @@ def require_return(ck: Check, rule: str, summ: Summary, spec: Spec, expected: st
     if rets and fv is not None and same_value(canon_callables(ck.walker, fv), canon_callables(ck.walker, want)):
         ck.ok(rule, construct, what, rets[0].loc)
         return True
+    # an optional parameter added later that no call site passes: the function is what it is with the default
+    if rets and fv is not None and len(fi.params) > len(spec_params(spec, fi)):
+        try:
+            from ..rules.c15 import _decide_none_tests, param_bindings
+            fv2 = fv
+            for pn in fi.params[len(spec_params(spec, fi)):]:
+                if pn not in fi.defaults():
+                    fv2 = None
+                    break
+                vals = param_bindings(ck, fi.qualname, pn)
+                if len(vals) != 1:
+                    fv2 = None
+                    break
+                fv2 = _decide_none_tests(substitute(fv2, {("v", pn): vals[0]}))
+            if fv2 is not None:
+                fv2 = summ.norm.mk_ife(C(True), fv2, fv2) if fv2[0] != "ife" else _refold(summ, fv2)
+                if same_value(canon_callables(ck.walker, fv2), canon_callables(ck.walker, want)) or untag_eq(fv2, want):
+                    ck.ok(rule, construct, what + " (later optional parameters at their defaults: no call site passes them)", rets[0].loc)
+                    return True
+        except AnalysisError:
+            pass
     if summ.unknown:
         ck.unknown(rule, construct, "unanalysed constructs: %s" % "; ".join(summ.unknown[:3]), fi.loc)
         return False
     got = "; ".join(show(r.term) + (" if " + show(r.cond) if r.pc else "") for r in rets) or "nothing"
     ck.violated(rule, construct, "%s — the function returns %s" % (what, got), rets[0].loc if rets else fi.loc)
     return False
+
+
+def spec_params(spec: Spec, fi: Any) -> List[str]:
+    """the parameters the rule was written against (those the specification names)"""
+    n = getattr(spec, "n_named", None)
+    return list(fi.params[:n]) if n is not None else list(fi.params)
+
+
+def untag_eq(a: Term, b: Term) -> bool:
+    from .terms import untag
+    return untag(a) == untag(b)
+
+
+def _refold(summ: Summary, t: Term) -> Term:
+    """re-evaluate conditionals whose tests became constants after a substitution"""
+    if not isinstance(t, tuple) or not t:
+        return t
+    t = tuple(_refold(summ, x) if isinstance(x, tuple) else x for x in t)
+    if t[0] == "ife" and len(t) == 4:
+        return summ.norm.mk_ife(t[1], t[2], t[3])
+    if t[0] == "cmp" and len(t) == 4 and t[2][0] == "c" and t[3][0] == "c" and t[1] in ("is", "isnot", "==", "!="):
+        same = (t[2][1] is t[3][1]) if t[1] in ("is", "isnot") else (t[2][1] == t[3][1])
+        return C(same if t[1] in ("is", "==") else not same)
+    return t
 
 
 def require_returns_table(ck: Check, rule: str, summ: Summary, spec: Spec, table: Sequence[Tuple[str, str]], what: str) -> bool:
